@@ -54,6 +54,9 @@ class Clause:
     quick_shards: int = 1
     min_nontrivial: int = 2            # fewer distinct non-trivial cases than this => exit 2 (vacuous run)
     stateful: bool = False
+    simplify: Any = None               # optional: case -> iterable of structurally smaller candidate cases (ddmin pass
+                                       # after Hypothesis' own shrinker, for shapes it shrinks badly: permutations,
+                                       # back-references)
 
 
 @dataclass
@@ -297,8 +300,12 @@ def run_clause_shard(prop, clause_index, n, seed, shrink=True, max_buckets=4):
             try:
                 test()
             except Violation as v:
+                fc, fv = last.get("case"), v
+                if clause.simplify is not None:
+                    fc, fv = ddmin(clause, fc, fv)
+                v = fv
                 out["failures"].append({"clause": clause.name, "vclause": v.clause, "bucket": v.bucket,
-                                        "message": v.message, "case": json.loads(canon(last.get("case")))})
+                                        "message": v.message, "case": json.loads(canon(fc))})
                 excluded.add(v.bucket)
                 remaining -= max(1, stats.evaluations - before)
                 continue
@@ -312,6 +319,29 @@ def run_clause_shard(prop, clause_index, n, seed, shrink=True, max_buckets=4):
         shutil.rmtree(tmp, ignore_errors=True)
     out["wall_s"] = time.time() - t0
     return out
+
+
+def ddmin(clause, case, v, budget_s=30.0, max_calls=3000):
+    """greedy structural minimisation: accept a candidate iff it still fails in the same bucket"""
+    t0 = time.time()
+    calls = 0
+    improved = True
+    while improved and time.time() - t0 < budget_s and calls < max_calls:
+        improved = False
+        for cand in clause.simplify(case):
+            calls += 1
+            if time.time() - t0 > budget_s or calls > max_calls:
+                break
+            try:
+                clause.check(cand)
+            except Violation as w:
+                if w.bucket == v.bucket and w.clause == v.clause:
+                    case, v = cand, w
+                    improved = True
+                    break
+            except Exception:  # noqa
+                continue
+    return case, v
 
 
 def run_enum_chunk(prop, enum_index, tier, lo, hi):
